@@ -165,6 +165,10 @@ type c18Case struct {
 	// loss is reported and the application reconnects; only then does the keepalive return its error. The new session is
 	// watched for 1.3 s: a keepalive of the old session must not close it
 	PingFailsLate bool `json:"ping_fails_late,omitempty"`
+	// HookFails (end to end, clear-text TCP, steady mode): the application's PostConnectHook fails at the first Connect,
+	// which therefore returns an error: no session, so no keepalive; the application then connects again (hook fine) and
+	// that session must get its keepalives at the configured rate, not more
+	HookFails bool `json:"hook_fails,omitempty"`
 }
 
 func genC18(t *rapid.T) c18Case {
@@ -193,7 +197,10 @@ func genC18(t *rapid.T) c18Case {
 			c.PingFailsLate = true
 			c.SlowHandler = false
 		}
-		if !c.WS && c.FailAt == 0 && rapid.IntRange(0, 2).Draw(t, "priorDisconnect") == 0 {
+		if !c.WS && !c.TLS && c.FailAt == 0 && rapid.IntRange(0, 3).Draw(t, "hookFails") == 0 {
+			c.HookFails = true
+			c.SlowHandler = false
+		} else if !c.WS && c.FailAt == 0 && rapid.IntRange(0, 2).Draw(t, "priorDisconnect") == 0 {
 			c.PriorDisconnect = true
 			c.SlowHandler = false
 		}
@@ -347,6 +354,12 @@ func runC18E2E(c c18Case) vh.Result {
 		addr = wsrv.URL
 	} else {
 		srv, err := peer.Listen(func(pc *peer.Conn) {
+			if c.HookFails && pc.Index == 0 {
+				// the connection whose Connect fails in the application's hook: the server just keeps reading
+				pc.Negotiate(&peer.Script{Mechs: []string{"PLAIN"}}, 10*time.Second)
+				pc.Drain(20 * time.Second)
+				return
+			}
 			if c.PriorDisconnect && pc.Index == 0 {
 				// the earlier session: the server never answers the client's stream end, it just goes away
 				if out := pc.Negotiate(&peer.Script{Mechs: []string{"PLAIN"}, OfferTLS: c.TLS, Cert: "valid"}, 10*time.Second); !out.Established {
@@ -429,6 +442,20 @@ func runC18E2E(c c18Case) vh.Result {
 		})
 	}
 	disc0 := 0
+	if c.HookFails {
+		res.Label("post-connect-hook-fails-first")
+		cl.PostConnectHook = func() error { return errors.New("the application's hook fails") }
+		if err := cl.Connect(); err == nil {
+			res.Fail("harness-hook", "Connect returned nil although the PostConnectHook failed")
+			return res
+		}
+		cl.PostConnectHook = nil
+		time.Sleep(6 * interval)
+		if p, _ := wrap.snapshot(); len(p) > 0 {
+			res.Fail("keepalive-without-session", "%+v: Connect returned an error (the application's hook failed), yet %d keepalives were attempted in the 6 intervals that followed", c, len(p))
+			return res
+		}
+	}
 	if c.PriorDisconnect {
 		res.Label("after-disconnect-in-flight")
 		if err := cl.Connect(); err != nil {
@@ -611,7 +638,7 @@ func runC18E2E(c c18Case) vh.Result {
 
 var c18 = vh.Define(&vh.Def[c18Case]{
 	Property: "C18", Name: "keepalive",
-	Rule: "interval 2-40 ms x {k-th keepalive write fails, k in 1-10 | session ends after a generated fraction of the interval (1-100 tenths) | steady} x {bare keepalive loop on a stub Transport | real Client whose Transport is wrapped (Ping fails at k) against the scripted peer, the session ending by a cut of the connection or by </stream:stream> on a connection that stays open, over clear-text TCP, STARTTLS or WebSocket (ping frames; attempts counted in the wrapped Transport), in a third of the steady TCP cases after an earlier session of the same Client whose Disconnect is still in flight (the server never answers the stream end) and with the new session watched for 1.3 s, in half of the clear-text ping-failure cases the failing keepalive hangs until the connection has been cut, the loss reported and a new session set up, which must then survive it, the application's Disconnected handler returning at once or after 8 intervals (at most one keepalive may be attempted while it runs)}; oracle: n keepalives never take less than (n-1) intervals (a ticker never fires early: sound upper bound on the rate) at least one within 100 intervals + 3 s, each is a single newline on the wire, after the failing keepalive Close is called exactly once, no further keepalive follows, the loop returns and (end to end) the loss is reported by one error callback and one Disconnected event, no keepalive starts later than max(3 intervals, 100 ms) after the session ended and the loop returns; non-trivial = a failure index or an end time was drawn, or the end-to-end variant",
+	Rule: "interval 2-40 ms x {k-th keepalive write fails, k in 1-10 | session ends after a generated fraction of the interval (1-100 tenths) | steady} x {bare keepalive loop on a stub Transport | real Client whose Transport is wrapped (Ping fails at k) against the scripted peer, the session ending by a cut of the connection or by </stream:stream> on a connection that stays open, over clear-text TCP, STARTTLS or WebSocket (ping frames; attempts counted in the wrapped Transport), in a third of the steady TCP cases after an earlier session of the same Client whose Disconnect is still in flight (the server never answers the stream end) and with the new session watched for 1.3 s, in half of the clear-text ping-failure cases the failing keepalive hangs until the connection has been cut, the loss reported and a new session set up, which must then survive it, in a quarter of the steady clear-text cases the application's PostConnectHook fails at a first Connect (no keepalive may follow) before the session under observation is set up, the application's Disconnected handler returning at once or after 8 intervals (at most one keepalive may be attempted while it runs)}; oracle: n keepalives never take less than (n-1) intervals (a ticker never fires early: sound upper bound on the rate) at least one within 100 intervals + 3 s, each is a single newline on the wire, after the failing keepalive Close is called exactly once, no further keepalive follows, the loop returns and (end to end) the loss is reported by one error callback and one Disconnected event, no keepalive starts later than max(3 intervals, 100 ms) after the session ended and the loop returns; non-trivial = a failure index or an end time was drawn, or the end-to-end variant",
 	Quick: 160, Thorough: 2400, Journal: true,
 	Gen: genC18, Run: runC18,
 })
